@@ -1,7 +1,7 @@
 (* C13 (h) - the matcher of the port against Lua's: wherever strpatt's _match neither exhausts its
    recursion budget (MAX_MATCH_CALLS) nor touches memory outside the subject, it returns exactly what
    lstrlib.c's match returns (end position, captures, failure, malformed-pattern error). *)
-From C13 Require Import Model ModelDrv ModelPat ProofsIdx.
+From C13 Require Import Model ModelDrv ModelPat ProofsIdx ProofsDrv.
 Local Open Scope Z_scope.
 
 Definition good (r : mres) : Prop :=
@@ -79,6 +79,13 @@ Section Sim.
     destruct (sm s1); [|exact H]. apply IHk; assumption.
   Qed.
 
+  Lemma min_up_ext sm1 sm2 call caps ep : (forall x, sm1 x = sm2 x) ->
+    forall k s1, min_up sm1 call caps ep k s1 = min_up sm2 call caps ep k s1.
+  Proof.
+    intros He. induction k as [|k IHk]; intros s1; cbn [min_up]; rewrite He; [reflexivity|].
+    destruct (call caps s1 (ep + 1)); try reflexivity. destruct (sm2 s1); [apply IHk|reflexivity].
+  Qed.
+
   Lemma body_sim call1 call2 again1 again2 caps s p r :
     sim_call call1 call2 -> sim_again again1 again2 ->
     match_body c1 src pat call1 again1 caps s p = r -> good r ->
@@ -119,7 +126,6 @@ Section Sim.
       end = r).
     { intros r0. destruct (class_end pat p) as [ep|]; [|tauto].
       rewrite <- single_match_eq, <- count_max_eq.
-      assert (Hsm : (fun s1 => single_match c2 src pat s1 p ep) = (fun s1 => single_match c1 src pat s1 p ep) \/ True) by (right; exact I).
       destruct (negb (single_match c1 src pat s p ep)).
       { destruct ((P pat ep =? 42) || (P pat ep =? 63) || (P pat ep =? 45)); [apply Ha|tauto]. }
       destruct (P pat ep =? 63).
@@ -127,12 +133,10 @@ Section Sim.
           try (subst r0; contradiction); rewrite (Hc _ _ _ _ E1 I); try exact H. apply Ha; assumption. }
       destruct ((P pat ep =? 43) || (P pat ep =? 42)); [apply max_down_sim; exact Hc|].
       destruct (P pat ep =? 45); [|apply Ha].
-      intros H G. apply (min_up_sim _ call1 call2 caps ep Hc) in H; [|exact G].
-      rewrite <- H. clear H G.
-      (* the two single-match predicates agree pointwise *)
-      generalize (S (length src)) as k. intros k. generalize s as s1. induction k as [|k IHk]; intros s1; cbn [min_up];
-        destruct (call2 caps s1 (ep + 1)); try reflexivity; rewrite single_match_eq; [reflexivity|].
-      destruct (single_match c2 src pat s1 p ep); [apply IHk|reflexivity]. }
+      intros H G.
+      rewrite (min_up_ext (fun s1 => single_match c2 src pat s1 p ep) (fun s1 => single_match c1 src pat s1 p ep))
+        by (intros; symmetry; apply single_match_eq).
+      apply (min_up_sim _ call1 call2 caps ep Hc); assumption. }
     destruct (P pat p =? 40).
     { destruct (Z.of_nat (length caps) <? cfg_maxcap c2); [|tauto].
       destruct (P pat (p + 1) =? 41); apply Hc. }
@@ -223,11 +227,206 @@ Qed.
 Definition match_eq_lua : Prop :=
   forall src pat p0 s, is_bytes src = true -> run_match nl_cfg src pat p0 s = run_match lua_cfg src pat p0 s.
 
-Definition a_opt_31_b : bytes := concat (repeat [97; 63] 31) ++ [98].
+(* 31 nested captures: within Lua's limits, beyond the port's recursion budget *)
+Definition paren31 : bytes := repeat 40 31 ++ [120] ++ repeat 41 31.
 Lemma match_eq_lua_refuted : ~ match_eq_lua.
 Proof.
   intros H. specialize (H [] [37; 102; 91; 37; 122; 93] 0 0 eq_refl). vm_compute in H. discriminate.
 Qed.
 Lemma match_budget_witness :
-  run_match nl_cfg [97; 97; 97] a_opt_31_b 0 0 = MTooComplex /\ run_match lua_cfg [97; 97; 97] a_opt_31_b 0 0 = MFail.
-Proof. vm_compute. split; reflexivity. Qed.
+  run_match nl_cfg [120] paren31 0 0 = MTooComplex /\
+  exists caps, run_match lua_cfg [120] paren31 0 0 = MFound 1 caps.
+Proof. vm_compute. split; [reflexivity|eexists; reflexivity]. Qed.
+
+(* ------------------------------------------------------------------------------------------------
+   a match that starts inside the subject ends at or after its start and inside the subject
+   ------------------------------------------------------------------------------------------------ *)
+Section Range.
+  Variable cfg : mcfg.
+  Variable src pat : bytes.
+  Notation L := (slen_ src).
+
+  Definition ok_call (k : list cap -> Z -> Z -> mres) : Prop :=
+    forall caps s p e caps', 0 <= s <= L -> k caps s p = MFound e caps' -> s <= e <= L.
+  Definition ok_again (k : Z -> Z -> mres) : Prop :=
+    forall s p e caps', 0 <= s <= L -> k s p = MFound e caps' -> s <= e <= L.
+
+  Lemma single_match_lt s p ep : single_match cfg src pat s p ep = true -> s < L.
+  Proof. unfold single_match. destruct (Z.leb_spec (slen_ src) s); [discriminate|lia]. Qed.
+
+  Lemma count_max_bound f : forall s0 p ep i, 0 <= i -> s0 + i <= L ->
+    i <= count_max cfg src pat f s0 p ep i /\ s0 + count_max cfg src pat f s0 p ep i <= L.
+  Proof.
+    induction f as [|f IH]; intros s0 p ep i Hi Hb; cbn [count_max]; [lia|].
+    destruct (single_match cfg src pat (s0 + i) p ep) eqn:E; [|lia].
+    apply single_match_lt in E. destruct (IH s0 p ep (i + 1) ltac:(lia) ltac:(lia)). lia.
+  Qed.
+
+  Lemma max_down_range call caps s0 ep : ok_call call -> 0 <= s0 ->
+    forall k i e caps', 0 <= i -> s0 + i <= L -> max_down call caps s0 ep k i = MFound e caps' -> s0 <= e <= L.
+  Proof.
+    intros Hc Hs0. induction k as [|k IHk]; intros i e caps' Hi Hb; cbn [max_down];
+      destruct (call caps (s0 + i) (ep + 1)) eqn:E1; try discriminate.
+    - intros [= <- <-]. apply Hc in E1; lia.
+    - intros [= <- <-]. apply Hc in E1; lia.
+    - destruct (Z.ltb_spec (i - 1) 0); [discriminate|]. apply IHk; lia.
+  Qed.
+
+  Lemma min_up_range call caps p ep : ok_call call ->
+    forall k s1 e caps', 0 <= s1 <= L ->
+      min_up (fun x => single_match cfg src pat x p ep) call caps ep k s1 = MFound e caps' -> s1 <= e <= L.
+  Proof.
+    intros Hc. induction k as [|k IHk]; intros s1 e caps' Hs; cbn [min_up];
+      destruct (call caps s1 (ep + 1)) eqn:E1; try discriminate.
+    - intros [= <- <-]. apply Hc in E1; lia.
+    - destruct (single_match cfg src pat s1 p ep); discriminate.
+    - intros [= <- <-]. apply Hc in E1; lia.
+    - destruct (single_match cfg src pat s1 p ep) eqn:Es; [|discriminate].
+      apply single_match_lt in Es. intros H. apply IHk in H; lia.
+  Qed.
+
+  Lemma balance_range f : forall s b e cont s', 0 <= s -> balance_loop src f s b e cont = Some s' -> s < s' <= L.
+  Proof.
+    induction f as [|f IH]; intros s b e cont s' Hs; cbn [balance_loop]; [discriminate|].
+    destruct (Z.ltb_spec s (slen_ src)) as [Hlt|Hge]; cbn [negb]; [|discriminate].
+    destruct (S_ src s =? e).
+    - destruct (cont - 1 =? 0); [intros [= <-]; lia|]. intros Hb. apply IH in Hb; lia.
+    - destruct (S_ src s =? b); intros Hb; apply IH in Hb; lia.
+  Qed.
+
+  Lemma body_range call again caps s p e caps' :
+    ok_call call -> ok_again again -> 0 <= s <= L ->
+    match_body cfg src pat call again caps s p = MFound e caps' -> s <= e <= L.
+  Proof.
+    intros Hc Ha Hs. unfold match_body.
+    destruct (negb (p <? plen pat)); [intros [= <- <-]; lia|].
+    assert (Hdflt :
+      match class_end pat p with
+      | Some ep =>
+          if negb (single_match cfg src pat s p ep)
+          then if (P pat ep =? 42) || (P pat ep =? 63) || (P pat ep =? 45) then again s (ep + 1) else MFail
+          else if P pat ep =? 63
+               then match call caps (s + 1) (ep + 1) with MFail => again s (ep + 1) | r0 => r0 end
+               else if (P pat ep =? 43) || (P pat ep =? 42)
+                    then max_down call caps (if P pat ep =? 43 then s + 1 else s) ep (S (length src))
+                           (count_max cfg src pat (S (length src)) (if P pat ep =? 43 then s + 1 else s) p ep 0)
+                    else if P pat ep =? 45
+                         then min_up (fun s1 => single_match cfg src pat s1 p ep) call caps ep (S (length src)) s
+                         else again (s + 1) ep
+      | None => MError
+      end = MFound e caps' -> s <= e <= L).
+    { destruct (class_end pat p) as [ep|]; [|discriminate].
+      destruct (single_match cfg src pat s p ep) eqn:Es; cbn [negb].
+      2:{ destruct ((P pat ep =? 42) || (P pat ep =? 63) || (P pat ep =? 45)); [|discriminate]. apply Ha. exact Hs. }
+      apply single_match_lt in Es.
+      destruct (P pat ep =? 63).
+      { destruct (call caps (s + 1) (ep + 1)) eqn:E1; try discriminate.
+        - intros [= <- <-]. apply Hc in E1; lia.
+        - apply Ha. exact Hs. }
+      destruct ((P pat ep =? 43) || (P pat ep =? 42)).
+      { set (s0 := if P pat ep =? 43 then s + 1 else s).
+        assert (Hs0 : s <= s0 <= L) by (subst s0; destruct (P pat ep =? 43); lia).
+        destruct (count_max_bound (S (length src)) s0 p ep 0 ltac:(lia) ltac:(lia)) as [Hi Hb].
+        intros H. apply max_down_range in H; try assumption; lia. }
+      destruct (P pat ep =? 45).
+      { intros H. apply min_up_range in H; try assumption. }
+      intros H. apply Ha in H; lia. }
+    destruct (P pat p =? 40).
+    { destruct (Z.of_nat (length caps) <? cfg_maxcap cfg); [|discriminate].
+      destruct (P pat (p + 1) =? 41); apply Hc; exact Hs. }
+    destruct (P pat p =? 41).
+    { destruct (to_close caps (length caps)) as [l|]; [|discriminate].
+      destruct (nth_error caps l) as [[ci cl]|]; [apply Hc; exact Hs|discriminate]. }
+    destruct ((P pat p =? 36) && (p + 1 =? plen pat)).
+    { destruct (s =? slen_ src); [intros [= <- <-]; lia|discriminate]. }
+    destruct (P pat p =? 37); [|exact Hdflt].
+    destruct (P pat (p + 1) =? 98).
+    { destruct (negb (p + 2 <? plen pat - 1)); [discriminate|].
+      destruct ((slen_ src <=? s) || negb (S_ src s =? P pat (p + 2))); [discriminate|].
+      destruct (balance_loop src (S (length src)) (s + 1) (P pat (p + 2)) (P pat (p + 3)) 1) as [s'|] eqn:Eb; [|discriminate].
+      apply balance_range in Eb; [|lia]. intros H. apply Ha in H; lia. }
+    destruct (P pat (p + 1) =? 102).
+    { destruct (negb (P pat (p + 2) =? 91)); [discriminate|].
+      destruct (class_end pat (p + 2)) as [ep|]; [|discriminate].
+      destruct (cfg_front_prev_unsafe_on_empty cfg && (s =? 0) && negb (s <? slen_ src)); [discriminate|].
+      destruct (negb _ && _); [apply Ha; exact Hs|discriminate]. }
+    destruct ((48 <=? P pat (p + 1)) && (P pat (p + 1) <=? 57)); [|exact Hdflt].
+    destruct ((P pat (p + 1) - 49 <? 0) || (Z.of_nat (length caps) <=? P pat (p + 1) - 49)); [discriminate|].
+    destruct (nth_error caps (Z.to_nat (P pat (p + 1) - 49))) as [[ci cl]|]; [|discriminate].
+    destruct (cl =? CAP_UNFINISHED); [discriminate|].
+    destruct (Z.leb_spec 0 cl); cbn [andb]; [|discriminate].
+    destruct (Z.leb_spec cl (slen_ src - s)); cbn [andb]; [|discriminate].
+    destruct (bytes_eqb (slice src ci cl) (slice src s cl)); [|discriminate].
+    intros Hr. apply Ha in Hr; lia.
+  Qed.
+
+  Lemma do_match_range fuel : forall d caps s p e caps', 0 <= s <= L ->
+    do_match cfg src pat fuel d caps s p = MFound e caps' -> s <= e <= L.
+  Proof.
+    induction fuel as [|f IH]; intros d caps s p e caps' Hs; [discriminate|].
+    cbn [do_match]. apply body_range; [| |exact Hs].
+    - intros caps0 s0 p0 e0 c0 Hs0. destruct (enter cfg d); [apply IH; exact Hs0|discriminate].
+    - intros s0 p0 e0 c0 Hs0. apply IH. exact Hs0.
+  Qed.
+End Range.
+
+(* the matcher as string.gsub / str_gsub call it: positions inside the subject, anything that is
+   not a match counts as "no match here" *)
+Definition pat_matcher (cfg : mcfg) (src pat : bytes) (p0 : Z) : matcher :=
+  fun pos =>
+    if (0 <=? pos) && (pos <=? slen src) then
+      match run_match cfg src pat p0 pos with MFound e c => Some (e, c) | _ => None end
+    else None.
+
+Lemma pat_matcher_range cfg src pat p0 pos e c : pat_matcher cfg src pat p0 pos = Some (e, c) -> pos <= e <= slen src.
+Proof.
+  unfold pat_matcher, run_match.
+  destruct (Z.leb_spec 0 pos); destruct (Z.leb_spec pos (slen src)); cbn [andb]; try discriminate.
+  destruct (cfg_enter cfg (cfg_depth0 cfg)); [|discriminate].
+  destruct (do_match cfg src pat (match_fuel src pat) z [] pos p0) eqn:E; try discriminate.
+  intros [= <- <-]. apply do_match_range in E; [exact E|unfold slen_; lia].
+Qed.
+
+(* string.gsub only looks at its matcher pointwise *)
+Lemma nl_gsub_ext (m1 m2 : matcher) s repl anchor maxn : (forall p, m1 p = m2 p) ->
+  nl_gsub m1 s repl anchor maxn = nl_gsub m2 s repl anchor maxn.
+Proof.
+  intros Hext.
+  assert (Hs : forall k a b, nl_search k m1 anchor a b = nl_search k m2 anchor a b).
+  { induction k as [|k IHk]; intros a b; cbn [nl_search]; rewrite Hext; [reflexivity|].
+    destruct (m2 b) as [[e c]|]; [reflexivity|].
+    destruct ((a <? b + 1) || anchor); [reflexivity|apply IHk]. }
+  unfold nl_gsub.
+  assert (G : forall f pos last n acc, nl_gsub_loop f m1 s repl anchor maxn pos last n acc =
+                                       nl_gsub_loop f m2 s repl anchor maxn pos last n acc); [|apply G].
+  induction f as [|f IH]; intros pos last n acc; [reflexivity|].
+  cbn [nl_gsub_loop]. unfold nl_ms_match. rewrite Hs.
+  destruct (n <? maxn); [|reflexivity].
+  destruct (slen s <? pos).
+  - destruct (pos <? slen s); [|reflexivity]. destruct anchor; [reflexivity|apply IH].
+  - destruct (nl_search (Z.to_nat (slen s - pos)) m2 anchor (slen s) pos) as [[[st e] caps]|].
+    + destruct (negb (e =? last)).
+      * destruct (expand s st e caps repl); [|reflexivity]. destruct anchor; [reflexivity|apply IH].
+      * destruct (pos <? slen s); [|reflexivity]. destruct anchor; [reflexivity|apply IH].
+    + destruct (pos <? slen s); [|reflexivity]. destruct anchor; [reflexivity|apply IH].
+Qed.
+
+(* string.gsub on a real pattern: if the port's matcher stays within its budget and within memory at
+   every position of the subject, string.gsub returns what Lua's gsub returns *)
+Theorem gsub_pattern_eq_lua src pat repl anchor maxn p0 : is_bytes src = true ->
+  (forall pos, 0 <= pos <= slen src -> good (run_match nl_cfg src pat p0 pos)) ->
+  nl_gsub (pat_matcher nl_cfg src pat p0) src repl anchor maxn =
+  lua_gsub (pat_matcher lua_cfg src pat p0) src repl anchor maxn /\
+  lua_gsub (pat_matcher lua_cfg src pat p0) src repl anchor maxn <> None.
+Proof.
+  intros Hsrc Hgood.
+  assert (Hext : forall pos, pat_matcher nl_cfg src pat p0 pos = pat_matcher lua_cfg src pat p0 pos).
+  { intros pos. unfold pat_matcher.
+    destruct (Z.leb_spec 0 pos); cbn [andb]; [|cbv iota; exact eq_refl].
+    destruct (Z.leb_spec pos (slen src)); cbv iota; [|exact eq_refl].
+    rewrite (match_eq_lua_partial src pat p0 pos _ Hsrc eq_refl (Hgood pos ltac:(lia))). reflexivity. }
+  destruct (gsub_eq_lua_gen (pat_matcher lua_cfg src pat p0) src repl anchor maxn
+              (pat_matcher_range lua_cfg src pat p0)) as [E Hne].
+  split; [|exact Hne]. rewrite <- E.
+  apply nl_gsub_ext. exact Hext.
+Qed.
